@@ -31,6 +31,7 @@ type opDef struct {
 	share    shareMode
 	ext      bool // extends a list (cons list* append push add nconc)
 	core     bool // member of the reduced alphabet used for the deep BFS of the thorough tier
+	core5    bool // member of the small alphabet of the fifth step of the deep BFS
 	quick    bool // member of the quick alphabet
 	minS     int  // S must have at least this many elements
 	needT    bool // T must be non-empty
@@ -39,9 +40,30 @@ type opDef struct {
 	lisp     func(n int64) string
 	want     func(sv, tv []int64, n int64) []int64 // expected value of dst (nil func: not checked)
 	wantS    func(sv []int64, n int64) []int64     // expected value of S after element replacement (nil func: not checked)
+	// ---- second-generation operations (ops2.go)
+	group  string                                // "" first generation | kw | fn | box | site
+	minT   int                                   // T must have at least this many elements
+	keepS  bool                                  // destructive on T only: S itself must stay unchanged
+	keepT  bool                                  // destructive on S only: T itself must stay unchanged
+	base   func(sv, tv []int64, n int64) []int64 // result of the keyword-free form (kw group)
+	tail   func(sv []int64) int                  // reference models: the result shares the cells of S from this index on
+	tailT  func(tv []int64) int                  // the same for T
+	site   *siteDef                              // code evaluated once per history before the first use
+	famRec *fam
+	setEq  bool                                  // the result is a set: compared without order and multiplicity
+	okS    func(sv []int64) bool                 // further applicability condition on S
+	okST   func(sv, tv []int64) bool             // further applicability condition on S and T
+	wantS2 func(sv, tv []int64, n int64) []int64 // expected value of S after the call when it depends on T
+	alt    func(sv, tv []int64, n int64) []int64 // a second acceptable result (the language leaves the choice open)
 }
 
-var varNames = [3]string{"a", "b", "c"}
+// nLoc locations hold lists: the pool variables a, b, c and three containers that keep a list across steps -
+// h (the value of key 1 of a hash table), o (the slot s of a standard-object), k (a variable closed over by a lambda).
+const nLoc = 6
+
+var varNames = [nLoc]string{"a", "b", "c", "h", "o", "k"}
+
+type state [nLoc]obsVar
 
 func cat(parts ...[]int64) []int64 {
 	var out []int64
@@ -121,8 +143,23 @@ func isCore(o *opDef) bool {
 	return false
 }
 
+// core5: the small alphabet of the fifth step of the deep BFS - ONE instantiated operation per sharing class of the
+// first generation (classes.go: 38 classes measured over the 2316 states reachable by <= 2 quick operations, i.e. on
+// histories of length <= 3; the 7 classes that differ from another one only by the states they apply to or by the
+// direction / index they use - butlast2 last2 setf-nth2 subseq-1-3 sort< sort<-bare delete-if-bare - are represented by
+// that other class). Producers read a and assign c (a and b stay observable), in-place operations work on a.
+var core5 = map[string]bool{
+	"c=add(a)": true, "add!(a)": true, "c=append(a,b)": true, "c=copy-list(a)": true, "c=butlast(a)": true, "c=cdr(a)": true,
+	"c=cons(a)": true, "c=remove-if(a)": true, "a=delete-2nd(a)": true, "delete-2nd!(a)": true, "c=last(a)": true, "c=list*(a)": true,
+	"c=map-list(a)": true, "c=subseq-0-2(a)": true, "c=member-2nd(a)": true, "a=nconc(a,b)": true, "nconc!(a,b)": true,
+	"a=nreverse(a)": true, "nreverse!(a)": true, "c=nthcdr0(a)": true, "c=nthcdr2(a)": true, "pop(a)": true, "push(a)": true,
+	"setf-car(a)": true, "setf-nth1(a)": true, "c=rplacd(a,b)": true, "rplacd!(a,b)": true, "a=rplacd(a,nil)": true,
+	"a=sort>(a)": true, "sort>!(a)": true, "c=subseq-0-0(a)": true,
+}
+
 func addOp(o *opDef) {
 	o.core = isCore(o)
+	o.core5 = core5[o.code]
 	o.fn = strings.TrimSuffix(o.name, "-bare")
 	if f, has := fnOf[o.fn]; has {
 		o.fn = f
@@ -175,7 +212,7 @@ func init() {
 		{"remove-2nd", "(remove (nth 1 %[1]s) %[1]s)", shareS, 2, func(s []int64) []int64 {
 			return filter(s, func(x int64) bool { return x != s[1] })
 		}, true, false},
-		{"remove-absent", "(remove 0 %s)", shareS, 1, func(s []int64) []int64 { return s }, false, false},
+		{"remove-absent", "(remove 0 %s)", shareS, 1, func(s []int64) []int64 { return filter(s, func(x int64) bool { return x != 0 }) }, false, false},
 		{"remove-if", "(remove-if #'evenp %s)", shareS, 1, func(s []int64) []int64 {
 			return filter(s, func(x int64) bool { return x%2 != 0 })
 		}, true, true},
@@ -377,7 +414,9 @@ func init() {
 	}
 }
 
-// alphabet returns the op codes of a tier ("quick", "thorough" = everything, "core" = deep BFS of thorough).
+// alphabet returns the op codes of a set: "quick" = the quick tier (first generation quick operations + every family of
+// the second generation not marked thorough), "old-quick" / "all" = first generation only (quick / everything),
+// "core" = the reduced first-generation alphabet of the deep BFS, "new" = second generation, "everything".
 func alphabet(which string) []string {
 	var out []string
 	for _, o := range allOps {
@@ -386,8 +425,28 @@ func alphabet(which string) []string {
 			if !o.quick {
 				continue
 			}
+		case "old-quick":
+			if !o.quick || o.group != "" {
+				continue
+			}
+		case "all":
+			if o.group != "" {
+				continue
+			}
+		case "new":
+			if o.group == "" {
+				continue
+			}
 		case "core":
 			if !o.core {
+				continue
+			}
+		case "mut":
+			if !isMut(o) {
+				continue
+			}
+		case "core5":
+			if !o.core5 {
 				continue
 			}
 		}
@@ -395,6 +454,9 @@ func alphabet(which string) []string {
 	}
 	return out
 }
+
+// isMut: the operations of the reduced alphabet that modify or extend a list (what exposes an illegal alias).
+func isMut(o *opDef) bool { return o.core && (o.destr || o.ext || o.name == "pop") }
 
 func mentions(o *opDef, v int) bool { return o.dst == v || o.s == v || o.t == v }
 
